@@ -15,6 +15,7 @@ package fox
 //@ -- Assumed contract of the matcher entry point (its mechanisms are specified separately under C01/C09):
 //@ -- it only writes the context's parameter buffers and tsr flag.
 //@ extern (*iTree).lookup
+//@   noalloc
 //@   requires t != nil && c != nil && c.params != nil && c.tsrParams != nil && c.skipNds != nil
 //@   modifies *c.params, *c.tsrParams, *c.skipNds, c.tsr, E[Param], E[skippedNode]
 //@   ensures n == selNode(t, method, hostPort, path) && tsr == selTsr(t, method, hostPort, path)
@@ -49,6 +50,8 @@ package fox
 //@   assume-at call (*cTx).reset#1 : pool-discipline: c != nil && c.params != nil && c.tsrParams != nil && c.skipNds != nil
 //@   ensures @C06 nolock: held[&fox.mu] == old(held[&fox.mu]) && lockOps[&fox.mu] == old(lockOps[&fox.mu]) && pubCount[&fox.tree] == old(pubCount[&fox.tree])
 //@   ensures @C05,C06 one-load: unlockedLoads[&fox.tree] == old(unlockedLoads[&fox.tree]) + (held[&fox.mu] ? 0 : 1)
+//@   assert-at call call#1 : @C16 noalloc-direct: nextref == old(nextref)
+//@   assert-at call call#2 : @C16 noalloc-ignore-tsr: nextref == old(nextref)
 //@   ensures one-handler: hCalls == old(hCalls) + 1
 //@   ensures request: hReq == r
 //@   ensures direct: old(isDirect(fox, r)) ==> hFn == old(sn(fox, r).route.hall) && hRoute == old(sn(fox, r).route) && !hTsr && hScope == RouteHandler
@@ -124,3 +127,19 @@ package fox
 //@   modifies *c.params, *c.tsrParams, *c.skipNds, c.tsr, E[Param], E[skippedNode]
 //@   assert-at call lookupByDomain#1 : stripped-host: same(arg_host, netutil.StripHostPort(hostPort)) && same(arg_path, path) && arg_target == r[index] && arg_lazy == lazy
 //@   ensures tsr-flag: c.tsr ==> old(c.tsr)
+
+//@ -- ---------------------------------------------------------------- C06 / C16: effect clauses (call-graph closure)
+//@ effects (*Router).ServeHTTP : nolock props C06
+//@ effects (*Router).Lookup : nolock props C06
+//@ effects (*Router).Route : nolock props C06
+//@ effects (*Router).Has : nolock props C06
+//@ effects (*Router).Reverse : nolock props C06
+//@ effects (*Router).Len : nolock props C06
+//@ effects (*Router).Iter : nolock props C06
+//@ effects (*Txn).Has : nolock props C06
+//@ effects (*Txn).Route : nolock props C06
+//@ effects (*Txn).Reverse : nolock props C06
+//@ effects (*Txn).Lookup : nolock props C06
+//@ effects (*Txn).Len : nolock props C06
+//@ effects (*Txn).Iter : nolock props C06
+//@ effects (*iTree).lookup : noalloc except copyWithResize props C16
